@@ -95,6 +95,22 @@ CLAIMS = {
         note=BASE_NOTE + "Reading: declare-and-evaluate atomically (observe_at). Construction styles are identified in the model "
              "(they reach the same patched __new__); that is checked by correspondence.",
         tech="Lean 4 proof (invariant by induction over operation histories) + identity-level differential correspondence"),
+    'C16': dict(
+        text="LIST equalities (order and multiplicity) c16_unnest_pair, c16_unnest_elem, c16_unnest_parent_cond, "
+             "c16_unnest_elem_cond, c16_nonempty_singleton: flatten(t) yields one row per inner element, correlated with its parent, "
+             "with/without conditions on parent or element, parent selected or not; proved for an arbitrary World. Correspondence: "
+             "parents with empty/overlapping/scalar/repeated/falsy inner values, every selection and condition shape incl. and_/or_.",
+        note=BASE_NOTE + "Conjunctions/disjunctions of conditions are covered by correspondence. With caching enabled a condition on "
+             "the flattened element is subject to known finding C05-F2 (cache keyed on variables only).",
+        tech="Lean 4 proof (list equalities by unfolding the evaluator + cond_dist) + differential correspondence"),
+    'C17': dict(
+        text="c17_concat_value / c17_concat_rows: concatenate(t) evaluates to exactly one output, the list of all inner elements in "
+             "domain order then inner order with multiplicity; c17_member / c17_not_member: in_/not_(in_) of another variable against "
+             "it select exactly the (non-)members, in domain order. Correspondence: the single value as a sequence, membership, "
+             "non-membership, contains spelling.",
+        note=BASE_NOTE + "Non-empty parent domain in the generated cases. The implementation also rebinds the operand's variable to "
+             "a list inside the output; using that variable afterwards is outside the property.",
+        tech="Lean 4 proof (unfolding the evaluator on the concatenate node) + differential correspondence"),
 }
 
 ALL = ['C%02d' % i for i in range(1, 21)]
